@@ -59,7 +59,10 @@ def result_ctors(prog):
                 ex = hir.peel(flds.get("expr", {})) if "expr" in flds else {}
                 is_some = ex.get("k") == "Call" and (hir.peel(ex["f"]).get("res", {}).get("ctor_path") or "").split("::")[-1] == "Some"
                 is_none = ex.get("k") == "Path" and (ex["res"].get("ctor_path") or "").split("::")[-1] == "None"
-                out.append((f, n, {"expr": "Some" if is_some else ("None" if is_none else "?"), "status": stv}))
+                # a result made out of another one (`TransformResult { expr: self.expr.map(..), status: self.status, .. }`):
+                # it reports whatever status the other reports
+                carried = stv is None and (hir.place(st) or "").split(".")[-1].split("#")[0] == "status" and "TransformResult" in (hir.peel(st.get("e") or st.get("x") or {}).get("ty") or st.get("base_ty") or "")
+                out.append((f, n, {"expr": "Some" if is_some else ("None" if is_none else "?"), "status": stv, "carried": carried}))
     return out
 
 
@@ -304,9 +307,27 @@ def rule_modified_implies_hook(check, rule="MODIFIED-HOOK"):
         for n in f.nodes():
             if n.get("k") == "Struct" and (n["res"].get("path") or "").endswith("TransformResult"):
                 ctors.append((f, n))
-    where = sorted({f.name for f, _ in ctors})
+    carried_nodes = set()
+    for f, n, val in result_ctors(prog):
+        if not val.get("carried"):
+            continue
+        # a result made out of another one: it keeps the invariant of that one when its status *and* the presence
+        # of its expression are that one's (`expr: r.expr.map(..)` / `r.expr`, `status: r.status`)
+        flds = {x["name"]: hir.peel(x["e"]) for x in n["fields"]}
+        sbase = hir.place(hir.peel(flds["status"]).get("x") or {}) if flds["status"].get("k") == "Field" else None
+        ex = flds.get("expr") or {}
+        while hir.is_call(ex) and (hir.callee_name(ex) or ex.get("method")) in ("map", "clone", "take") and hir.call_args(ex):
+            ex = hir.peel(hir.call_args(ex)[0])
+        ebase = hir.place(hir.peel(ex.get("x") or {})) if ex.get("k") == "Field" and ex.get("field") == "expr" else None
+        ok_c = sbase is not None and sbase == ebase
+        check.expect(ok_c, rule, "%s/invariant/%s/carried" % (rule, f.name), hir.loc(n), "status and presence of the expression are those of the result it is made from (%s)" % sbase, "TransformResult built in %s takes its status from %s and its expression from %s" % (f.name, sbase, ebase or hir.describe(flds.get("expr") or {})[:60]))
+        if ok_c:
+            carried_nodes.add(id(n))
+    where = sorted({f.name for f, n_ in ctors if id(n_) not in carried_nodes})
     check.expect(where == ["modified", "modified_with_tag", "not_modified"], rule, rule + "/result-ctors", "-", "TransformResult literals only in %s" % where, "TransformResult is constructed in %s" % where)
     for f, n, val in result_ctors(prog):
+        if id(n) in carried_nodes:
+            continue
         stv = status_of_result(prog, val)
         is_some, is_none = val["expr"] == "Some", val["expr"] == "None"
         ok = (stv == "Modified" and is_some) or (stv == "NotModified" and is_none)
